@@ -50,11 +50,21 @@ pub struct Op {
     pub f: Arc<dyn Fn() -> String + Send + Sync>,
     /// a context op only prepares state: sequences never *end* in one
     pub is_context: bool,
+    /// position in the property's full op list (`props::history_ops`): what `--ops <k>` and replay files refer to
+    pub gid: usize,
+}
+
+/// number the ops of a full alphabet
+pub fn numbered(mut ops: Vec<Op>) -> Vec<Op> {
+    for (i, o) in ops.iter_mut().enumerate() {
+        o.gid = i;
+    }
+    ops
 }
 
 impl Op {
     pub fn new(name: impl Into<String>, f: impl Fn() -> String + Send + Sync + 'static) -> Op {
-        Op { name: name.into(), f: Arc::new(f), is_context: false }
+        Op { name: name.into(), f: Arc::new(f), is_context: false, gid: usize::MAX }
     }
     /// run the op with panics turned into an outcome
     pub fn call(&self) -> String {
@@ -122,7 +132,7 @@ pub fn serve(ops: &[Op], k: usize) -> i32 {
 }
 
 pub fn case_json(id: &str, ops: &[Op], seq: &[usize], pos: usize, mode: Mode, base: Base) -> serde_json::Value {
-    json!({"op": "call_history", "property": id, "mode": format!("{mode:?}"), "base": format!("{base:?}"), "sequence": seq, "names": seq.iter().map(|&k| ops[k].name.clone()).collect::<Vec<_>>(), "position": pos})
+    json!({"op": "call_history", "property": id, "mode": format!("{mode:?}"), "base": format!("{base:?}"), "sequence": seq.iter().map(|&k| ops[k].gid).collect::<Vec<_>>(), "names": seq.iter().map(|&k| ops[k].name.clone()).collect::<Vec<_>>(), "position": pos})
 }
 
 /// replay one recorded sequence: fresh thread vs fresh-process baseline, position by position
@@ -187,7 +197,7 @@ pub fn explore_with(run: &Run, id: &str, ops: &[Op], depth: usize, mode: Mode, b
     }
     // 1. baselines, each in its own process
     let base: Vec<String> = match base_from {
-        Base::FreshProcess => (0..n).into_par_iter().map(|k| baseline_in_fresh_process(id, k)).collect(),
+        Base::FreshProcess => (0..n).into_par_iter().map(|k| baseline_in_fresh_process(id, ops[k].gid)).collect(),
         Base::InProcess => (0..n).map(|k| run_on_fresh_thread(ops, &[k]).remove(0)).collect(),
     };
     run.eval(n as u64);
@@ -239,13 +249,14 @@ pub fn explore_with(run: &Run, id: &str, ops: &[Op], depth: usize, mode: Mode, b
     run.eval(positions.load(Ordering::Relaxed));
     let distinct: std::collections::HashSet<&String> = base.iter().collect();
     run.count(&format!("history_mode_{mode:?}_baseline_{base_from:?}"), 1);
-    run.count("history_ops", n as u64);
-    run.count("history_property_ops", last.len() as u64);
-    run.count("history_depth", depth as u64);
-    run.count("history_sequences_each_on_a_new_thread", sequences.load(Ordering::Relaxed));
-    run.count("history_positions_compared_with_fresh_process_baseline", positions.load(Ordering::Relaxed));
-    run.count("history_distinct_baseline_outcomes", distinct.len() as u64);
-    run.count("history_mismatches", mismatches.load(Ordering::Relaxed));
+    let d = depth;
+    run.count(&format!("history_ops_depth{d}"), n as u64);
+    run.count(&format!("history_property_ops_depth{d}"), last.len() as u64);
+    run.count("history_depth_explored", depth as u64);
+    run.count(&format!("history_sequences_each_on_a_new_thread_depth{d}"), sequences.load(Ordering::Relaxed));
+    run.count(&format!("history_positions_compared_with_fresh_process_baseline_depth{d}"), positions.load(Ordering::Relaxed));
+    run.count(&format!("history_distinct_baseline_outcomes_depth{d}"), distinct.len() as u64);
+    run.count(&format!("history_mismatches_depth{d}"), mismatches.load(Ordering::Relaxed));
     run.sample(json!({"call_history_ops": ops.iter().take(6).map(|o| o.name.clone()).collect::<Vec<_>>(), "baseline_of_first": clip(&base[0])}));
 }
 
